@@ -6254,7 +6254,7 @@ TestCommand_getFromBuffer(TestCommand self, CS101_AppLayerParameters parameters,
 static bool
 TestCommandWithCP56Time2a_encode(TestCommandWithCP56Time2a self, Frame frame, CS101_AppLayerParameters parameters, bool isSequence)
 {
-    int size = isSequence ? 2 : (parameters->sizeOfIOA + 9);
+    int size = isSequence ? 9 : (parameters->sizeOfIOA + 9);
 
     if (Frame_getSpaceLeft(frame) < size)
         return false;
